@@ -141,6 +141,8 @@ def _prop(kind: int, name: str):
         return {"oneOf": [{"type": "integer"}, {"type": "string", "example": name + "-one"}]}, [name + "-one"]
     if kind == 8:  # both keywords on one schema object
         return {"anyOf": [{"type": "string", "example": name + "-any"}], "oneOf": [{"type": "string", "example": name + "-one"}, {"type": "integer"}]}, [name + "-any", name + "-one"]
+    if kind == 9:  # an example that is itself an array, contributed by a later allOf item: one example, not one per element
+        return {"allOf": [{"type": "array", "items": {"type": "string"}}, {"example": [name + "-r", name + "-g"]}]}, [[name + "-r", name + "-g"]]
     return {"type": "object", "properties": {"n": {"type": "integer", "example": 7}}}, [{"n": 7}]
 
 
@@ -158,7 +160,7 @@ class _Op:
 
 def schema_examples(ka: int, kb: int, kc: int, req_a: bool, req_b: bool, req_c: bool) -> bool:
     """
-    pre: ka == param(0) % 9 and 0 <= kb <= 8 and 0 <= kc <= 6
+    pre: ka == param(0) % 10 and 0 <= kb <= 9 and 0 <= kc <= 6
     post: _
     """
     props = {}
@@ -192,7 +194,7 @@ def schema_examples(ka: int, kb: int, kc: int, req_a: bool, req_b: bool, req_c: 
 
 def array_items_examples(kind: int) -> bool:
     """
-    pre: 1 <= kind <= 8
+    pre: 1 <= kind <= 9
     post: _
     """
     sub, want = _prop(kind, "x")
@@ -417,7 +419,7 @@ OBLIGATIONS = [
        timeout={"quick": 120, "thorough": 300}, functions=["schemathesis.specs.openapi.examples.extract_inner_examples"],
        symbolic="kind of each of 3 map entries (8 kinds)", bounds="3 entries x 8 kinds", outside=["externalValue (network)"]),
     Ob(fn="schema_examples", clause="schema-level example/examples on properties, inside anyOf / oneOf (also both on one schema) and allOf branches and nested objects are sent unchanged; required properties are never missing",
-       timeout={"quick": 200, "thorough": 600}, params=range(9), functions=["schemathesis.specs.openapi.examples.extract_from_schema", "schemathesis.specs.openapi.examples._expand_subschemas"],
+       timeout={"quick": 200, "thorough": 600}, params=range(10), functions=["schemathesis.specs.openapi.examples.extract_from_schema", "schemathesis.specs.openapi.examples._expand_subschemas"],
        symbolic="placement kind (7) of the examples of 3 properties, membership in required", bounds="3 properties x 7 kinds x required flags",
        stubs=["_generate_single_example (Hypothesis draw for properties without examples) returns a sentinel"]),
     Ob(fn="array_items_examples", clause="examples inside array items are wrapped and sent", timeout=120,
